@@ -90,21 +90,27 @@ theorem foldN_unknown (S : Schema) (md : MD) : ∀ (rs : List NRec) (st st' : Li
       rw [ih]
       cases r with
       | flat w =>
-        simp only [NRec.applyN] at hr
+        simp only [NRec.applyN_flat] at hr
         injection hr with hr
         subst hr
         cases w <;> simp [WRec.apply, unknownBytesN]
       | msg idx fd i sub =>
-        simp only [NRec.applyN] at hr
+        simp only [NRec.applyN_msg] at hr
         cases hd : decodeMsgN S (S.md i) sub with
+        | ok p => rw [hd] at hr; injection hr with hr; subst hr; simp [unknownBytesN]
+        | err => rw [hd] at hr; cases hr
+        | panic => rw [hd] at hr; cases hr
+      | map idx fd i sub =>
+        simp only [NRec.applyN] at hr
+        cases hd : foldE S (S.md i) sub (initFields (S.md i)) with
         | ok p => rw [hd] at hr; injection hr with hr; subst hr; simp [unknownBytesN]
         | err => rw [hd] at hr; cases hr
         | panic => rw [hd] at hr; cases hr
     | err => rw [hr] at h; cases h
     | panic => rw [hr] at h; cases h
 
-/-- **unknown fields interleaved with scalar and message-typed fields** (nested / repeated / recursive
-    types): exactly the unknown records' raw bytes of the top level are retained, in wire order; the
+/-- **unknown fields interleaved with scalar, message-typed and map fields** (nested / repeated / recursive
+    types, map entries in any form): exactly the unknown records' raw bytes of the top level are retained, in wire order; the
     same statement holds one level down for every nested message, whose own retained bytes are kept
     inside its decoded value (`decodeMsgN` is applied recursively by `NRec.applyN`) -/
 theorem unknown_retained_in_order_nested (S : Schema) (fast : Bool) (md : MD) (rs : List NRec) (hok : OKs S md rs)
